@@ -229,6 +229,32 @@ def _first_call(st):
     return None
 
 
+def _first_helper_call(cx, st):
+    """the first helper call of the statement in evaluation order, provided that every call evaluated before it is part
+    of its own arguments (those are bound to temporaries, in order, ahead of the expanded body)"""
+    fields = None
+    for t, fs in _HEADER.items():
+        if isinstance(st, t):
+            fields = fs
+    if isinstance(st, ast.With) and st.items:
+        seq = _eager(st.items[0].context_expr, st.items[0], "context_expr", None)
+    elif fields:
+        seq = (x for f in fields for x in _eager(getattr(st, f), st, f, None))
+    else:
+        return None
+    prior = []
+    for x in seq:
+        if x[0] == "stop":
+            return None
+        if _resolve_helper(cx, x[0]) is not None:
+            inside = set(id(n) for a in list(x[0].args) + [k.value for k in x[0].keywords] for n in ast.walk(a))
+            if all(id(p) in inside for p in prior):
+                return x
+            return None
+        prior.append(x[0])
+    return None
+
+
 def _set(parent, field, idx, value):
     if idx is None:
         setattr(parent, field, value)
@@ -741,7 +767,7 @@ def _process_body(cx, stmts):
             last = cur[-1]
             if last is not st:
                 break
-            x = _first_call(st)
+            x = _first_helper_call(cx, st)
             if x is None:
                 break
             call, parent, field, idx = x
